@@ -58,7 +58,8 @@ def _frames(fd_stack):
                       st.lists(st.integers(0, 255), min_size=8, max_size=8), st.sampled_from([8, 8, 0, 7]))
     other = st.builds(lambda g, pf, ps, s, body: mk(g, 6, pf, ps, s, body), gap, st.integers(0, 255), st.sampled_from([SA_S, 255, 0, 0xCA]),
                       sa, st.lists(st.integers(0, 255), max_size=8))
-    psrc = st.sampled_from([SA_P, SA_X])
+    # (255: the "peer" of the stack's own broadcast sessions - an illegal source address that matches them)
+    psrc = st.sampled_from([SA_P, SA_P, SA_X, SA_X, 255])
     # frames aimed at the stack's own live sessions (from the peer it talks to, or the node that never answers)
     cts = st.builds(lambda g, s, n, nx, pg: mk(g, 7, 0xEC, SA_S, s, R.tp_cts(n, nx, pg)),
                     gap, psrc, st.sampled_from([0, 1, 2, 3, 255]), st.sampled_from([0, 1, 2, 3, 4, 5, 255]), st.just(PGN_OWN))
